@@ -700,6 +700,96 @@ fn script_cases() -> Vec<ScriptCase> {
     add("a=1 b=2 ext; export b; a=3 ext", &["exec[a=1,b=2]", "exec[a=3]"]);
     add("export a=1; a=2 ext; envp a; (a=5; envp a); envp a", &["exec[a=2]", "exec[a=1]", "exec[a=5]", "exec[a=1]"]);
     add("export a=1; unset a; a=2; envp a", &["exec[]"]);
+    // every means of assignment x every scope situation: the assignment reaches the innermost
+    // visible variable of that name (the function's own local, else a caller's local, else the
+    // global), or creates a global; locals vanish at return, globals assigned inside persist
+    v.extend(assignment_means_cases());
+    v
+}
+
+/// (text, kind): kind 0 = assigns always, 1 = `${x=7}` (only without a value), 2 = `${x:=7}` (also
+/// when empty), 3 = declares a local of the running function
+const MEANS: [(&str, u8); 11] = [
+    ("x=7", 0),
+    (": ${x=7}", 1),
+    (": ${x:=7}", 2),
+    (": $((x=7))", 0),
+    ("read x </tmp/seven", 0),
+    ("for x in 7; do :; done", 0),
+    ("export x=7", 0),
+    ("typeset -g x=7", 0),
+    (": \"${x:=7}\"", 2),
+    ("eval x=7", 0),
+    ("typeset x=7", 3),
+];
+
+fn assignment_means_cases() -> Vec<ScriptCase> {
+    // a variable in one context: None = absent, Some(None) = declared without a value, Some(Some(v))
+    type Slot = Option<Option<String>>;
+    let show = |ctxs: &[Slot]| -> String {
+        match ctxs.iter().rev().flatten().next() {
+            Some(Some(v)) => v.clone(),
+            _ => "U".to_string(),
+        }
+    };
+    let apply = |ctxs: &mut Vec<Slot>, kind: u8, in_function: bool| {
+        if kind == 3 && in_function {
+            *ctxs.last_mut().unwrap() = Some(Some("7".into()));
+            return;
+        }
+        let cur: Option<String> = ctxs.iter().rev().flatten().next().cloned().flatten();
+        let assign = match kind {
+            1 => cur.is_none(),
+            2 => cur.as_deref().is_none_or(|v| v.is_empty()),
+            _ => true,
+        };
+        if !assign {
+            return;
+        }
+        match ctxs.iter().rposition(|c| c.is_some()) {
+            Some(i) => ctxs[i] = Some(Some("7".into())),
+            None => ctxs[0] = Some(Some("7".into())),
+        }
+    };
+    let mut v = vec![];
+    let globals: [(&str, Slot); 3] = [("", None), ("x=; ", Some(Some(String::new()))), ("x=0; ", Some(Some("0".into())))];
+    let locals: [(&str, Slot); 3] = [("", None), ("typeset x=; ", Some(Some(String::new()))), ("typeset x; ", Some(None))];
+    for (m, kind) in MEANS {
+        for (gtext, gslot) in &globals {
+            // top level
+            {
+                let mut ctxs = vec![gslot.clone()];
+                apply(&mut ctxs, kind, false);
+                v.push(ScriptCase { script: format!("{gtext}{m}; args out \"${{x-U}}\""), expected: vec![format!("args[out][{}]", show(&ctxs))] });
+            }
+            for (ltext, lslot) in &locals {
+                // f alone
+                {
+                    let mut ctxs = vec![gslot.clone(), lslot.clone()];
+                    apply(&mut ctxs, kind, true);
+                    let inside = show(&ctxs);
+                    ctxs.pop();
+                    v.push(ScriptCase {
+                        script: format!("f() {{ {ltext}{m}; args in \"${{x-U}}\"; }}; {gtext}f; args out \"${{x-U}}\""),
+                        expected: vec![format!("args[in][{inside}]"), format!("args[out][{}]", show(&ctxs))],
+                    });
+                }
+                // g (with or without a local of its own) calls f (without a local)
+                if !ltext.is_empty() {
+                    let mut ctxs = vec![gslot.clone(), lslot.clone(), None];
+                    apply(&mut ctxs, kind, true);
+                    let inside = show(&ctxs);
+                    ctxs.pop();
+                    let in_g = show(&ctxs);
+                    ctxs.pop();
+                    v.push(ScriptCase {
+                        script: format!("f() {{ {m}; args in \"${{x-U}}\"; }}; g() {{ {ltext}f; args g \"${{x-U}}\"; }}; {gtext}g; args out \"${{x-U}}\""),
+                        expected: vec![format!("args[in][{inside}]"), format!("args[g][{in_g}]"), format!("args[out][{}]", show(&ctxs))],
+                    });
+                }
+            }
+        }
+    }
     v
 }
 
@@ -765,6 +855,7 @@ pub fn run(tier: Tier) -> i32 {
     for sc in &scripts {
         let mut setup = Setup::script(&sc.script);
         setup.files.push(("/tmp/empty".into(), vec![], 0o644));
+        setup.files.push(("/tmp/seven".into(), b"7\n".to_vec(), 0o644));
         let r = vsh::run_once(&setup, &Default::default());
         script_runs += 1;
         let got: Vec<String> = r.all_trace().into_iter().filter(|t| !t.starts_with("fds exec") && !t.starts_with("execpath:")).collect();
@@ -788,7 +879,7 @@ pub fn run(tier: Tier) -> i32 {
         "max_contexts_above_base": max_ctx,
         "scripts_through_shell": scripts.len(),
         "exhaustive": true,
-        "explanation": "BFS over operation histories on the real VariableSet (contexts pushed/popped through the public RAII guards by a recursive interpreter), every return value and every read (get, get_scoped x3, iter x3, env_c_strings, positional_params) compared with a stack-of-maps model after every operation; states deduplicated on (model state, canonicalised Debug rendering of the implementation state); plus scripts through the whole shell (prefix assignments to each command kind, locals, read-only, environment of executed programs via the exec stub)",
+        "explanation": "BFS over operation histories on the real VariableSet (contexts pushed/popped through the public RAII guards by a recursive interpreter), every return value and every read (get, get_scoped x3, iter x3, env_c_strings, positional_params) compared with a stack-of-maps model after every operation; states deduplicated on (model state, canonicalised Debug rendering of the implementation state); plus scripts through the whole shell (prefix assignments to each command kind, locals, read-only, environment of executed programs via the exec stub; and 11 means of assignment (plain, ${x=w}, ${x:=w} bare and quoted, $((x=..)), read, for, export, typeset -g, eval, typeset) x global {absent, empty, set} x the function's or the caller's local {none, empty, declared without value} at top level, in a function and in a function called by a function: the value seen inside, by the caller and after return against the rule: innermost visible variable, else global)",
     });
     ctx.finish(cov, &["names {x,y}; <=3 contexts above the base context; Scope::Volatile only when the topmost context is volatile (documented precondition)"])
 }
